@@ -23,7 +23,7 @@ func init() {
 			{"KEY-AGREE", ruleKeyAgree},
 		},
 		Meta: eng.PropMeta{
-			Explanation: "Decides that what a running node keeps in memory is rebuilt from, and allocated through, the store: (LOADERS) every success path of the constructors passes the loaders of the persisted families — NewPeer: replicators, p2p collections, p2p documents (each loader reads the family and feeds the in-memory routing table; errors returned) and the retry loop is started; DB.initialize on an existing store: loadSchema and the lens reload before Commit; on a fresh store the /init marker is written before Commit; (ALLOC-PERSIST) Sequence.Next reads the counter from the system store of the context transaction, advances it by one and writes it back in the same call, returning the write's error — identifiers are never allocated from memory only; (NO-PACKAGE-STATE) the id and sequence packages keep no mutable package-level state (short-id caches hang off the context); (TXN-SHAPE) initialize and every API entry point commit through the transaction discipline of C05; (REPLICATOR-PERSIST) SetReplicator/DeleteReplicator write the peer store record inside a transaction whose success path updates the in-memory table.",
+			Explanation: "Decides that what a running node keeps in memory is rebuilt from, and allocated through, the store: (LOADERS) every success path of the constructors passes the loaders of the persisted families — NewPeer: replicators, p2p collections, p2p documents (each loader reads the family and feeds the in-memory routing table; errors returned) and the retry loop is started; DB.initialize on an existing store: loadSchema and the lens reload before Commit; on a fresh store the /init marker is written before Commit; (ALLOC-PERSIST) Sequence.Next reads the counter from the system store of the context transaction, advances it by one and writes it back in the same call, returning the write's error — identifiers are never allocated from memory only; (NO-PACKAGE-STATE) the id and sequence packages keep no mutable package-level state (short-id caches hang off the context); (TXN-SHAPE) initialize and every API entry point commit through the transaction discipline of C05; (REPLICATOR-PERSIST) SetReplicator/DeleteReplicator write the peer store record inside a transaction whose success path updates the in-memory table. (REPLICATOR-TABLE-EXACT) server.updateReplicators removes the peer from the in-memory table of every collection that is not in a non-empty given set, so the live table equals what a restart rebuilds from the persisted list.",
 			NotDecided:  "equivalence of query results, descriptions and behaviour after arbitrary histories; crash points inside the KV store's commit (third party); identifier non-reuse over all histories",
 		},
 	})
